@@ -723,7 +723,17 @@ fn main() {
             let mut s = Search { fresh: Fresh { cache: HashMap::new(), evals: 0 }, evals: 0, histories: 0, compared: 0, skipped: 0, viol: HashMap::new(), fam: HashMap::new() };
             // (1) the regression corpus, always and first: every history that ever differed from
             //     a fresh thread (the first nine were repaired by 25aa9f6 and must stay repaired)
-            let fixed: [&[&str]; 17] = [
+            let fixed: [&[&str]; 24] = [
+                // the signature cache served another function's declared signature (repaired by 8592559)
+                &["F ← |1.0 +\nG ← F", "F ← +\nG ← F\n∩G 1 2 3 4"],
+                &["F ← +\nG ← F\n∩G 1 2 3 4", "F ← |1.0 +\nG ← F"],
+                // the anti-inverse cache did not feed for_un (repaired by 261768c)
+                &["M! ← ⊃(⌝^0 1|°(^0 1))\nM!ℂ ℂ0 5", "M! ← ⊃(°(^0 1)|⌝^0 1)\nM!ℂ ℂ0 5"],
+                &["M! ← ⊃(°(^0 1)|⌝^0 1)\nM!ℂ ℂ0 5", "M! ← ⊃(⌝^0 1|°(^0 1))\nM!ℂ ℂ0 5"],
+                &["⌝ℂ 1 ℂ0 5", "°(ℂ 1) ℂ0 5", "⌝ℂ 1 ℂ0 5"],
+                // algebraic inverses took their span from the end of the spans table (repaired by 9ebd726)
+                &["F ← +1˙×\n°F 5", "F ← +1˙×\nM! ← ⊃(¯^0|°^0)\nM!F \"ab\""],
+                &["F ← +1˙×\nX ← 1\nY ← 2\n°F 5", "F ← +1˙×\nM! ← ⊃(¯^0|°^0)\nM!F \"ab\"", "F ← +1˙×\n°F \"ab\""],
                 // same spans, the function index of K moves (X is a constant / a constant function)
                 &["X ← 5\nK ← (7)\nF ← °(+K)\nF ⌊⚂", "X ← (5)\nK ← (7)\nF ← °(+K)\nF ⌊⚂"],
                 &["X ← (5)\nK ← (7)\nF ← °(+K)\nF ⌊⚂", "X ← 5\nK ← (7)\nF ← °(+K)\nF ⌊⚂"],
@@ -807,6 +817,7 @@ fn main() {
             }
             // (3b) Lsp pre-evaluation: the same text compiled on the native backend and then on the denying
             //      backend in one thread, against the denying backend in a fresh thread
+            // (repaired by 49da69f: the cache is only used for pure nodes)
             for src in ["&var \"PATH\"", "&fe \"/etc/passwd\"", "os", "+1 2", "⧻&fras \"/etc/hostname\"", "F ← &var \"PATH\"\nF"] {
                 let (a, b) = lsp_pair(src);
                 s.evals += 3;
@@ -893,6 +904,9 @@ fn main() {
                 let node_eq = hooks::node_key(x) == hooks::node_key(y);
                 let inv_eq = hooks::inverse_key(sx, ax) == hooks::inverse_key(sy, ay);
                 let zip_eq = hooks::zip_key(x) == hooks::zip_key(y);
+                // the anti-inverse key also feeds for_un: the pair of kind "for-un" is one tree with for_un = false / true
+                let (fx, fy) = (false, kind == "for-un");
+                let anti_eq = hooks::anti_inverse_key(sx, ax, fx) == hooks::anti_inverse_key(sy, ay, fy);
                 let mut collide = "2";
                 let mut un_show = String::new();
                 let mut x_usable = true;
@@ -920,7 +934,7 @@ fn main() {
                     ("2", "2")
                 };
                 println!(
-                    "{{\"i\":{},\"kind\":{},\"x\":{},\"y\":{},\"sig_eq\":{},\"node_eq\":{},\"inv_eq\":{},\"zip_eq\":{},\"un_eq\":{},\"rsig_eq\":{},\"un_collide\":{},\"x_usable\":{},\"lx\":{},\"ly\":{},\"un_show\":{},\"show\":{}}}",
+                    "{{\"i\":{},\"kind\":{},\"x\":{},\"y\":{},\"sig_eq\":{},\"node_eq\":{},\"inv_eq\":{},\"zip_eq\":{},\"fx\":{},\"fy\":{},\"anti_eq\":{},\"un_eq\":{},\"rsig_eq\":{},\"un_collide\":{},\"x_usable\":{},\"lx\":{},\"ly\":{},\"un_show\":{},\"show\":{}}}",
                     *k,
                     jstr(kind),
                     jstr(&export_slice(x, ax)),
@@ -929,6 +943,9 @@ fn main() {
                     node_eq,
                     inv_eq,
                     zip_eq,
+                    fx,
+                    fy,
+                    anti_eq,
                     un_eq,
                     sg_eq,
                     collide,
@@ -957,6 +974,10 @@ fn main() {
                 // same tree twice
                 if r.chance(1, 10) {
                     emit("identical", &t, &asm, &t, &asm, fcmp, &mut k);
+                }
+                // same tree, anti-inverse for un / not for un
+                if r.chance(1, 8) {
+                    emit("for-un", &t, &asm, &t, &asm, false, &mut k);
                 }
                 // one span
                 let spanned: Vec<&Vec<usize>> = sites.iter().filter(|p| !matches!(at(&t, p), Node::Run(_)) && at(&t, p).span().is_some()).collect();
@@ -1034,6 +1055,18 @@ fn main() {
                         let mut y = t.clone();
                         if swap_calls(&mut y, &fs) > 0 {
                             emit("fn-body-spans", &t, &asm, &y, &asm3, fcmp, &mut k);
+                        }
+                    }
+                    // equal bodies, another DECLARED signature (accepted with a warning when the stack delta agrees)
+                    if src.contains("D ← ") {
+                        if let Some(asm5) = compile_lazy(&src.replacen("D ← ", "D ← |1.0 ", 1)) {
+                            let mut fs = HashMap::new();
+                            collect_funcs(&asm5.root, &mut fs);
+                            fs.retain(|k, f| have.get(k).map_or(false, |g| g.sig != f.sig));
+                            let mut y = t.clone();
+                            if !fs.is_empty() && swap_calls(&mut y, &fs) > 0 {
+                                emit("fn-declared-sig", &t, &asm, &y, &asm5, fcmp, &mut k);
+                            }
                         }
                     }
                     // the name of a handle
